@@ -20,6 +20,12 @@ CLAIMED = {
         text='Theorems: a value outside the signed-or-unsigned range of its field width is rejected, a value inside is assembled '
              '(all widths, all values); tied to the code by the same correspondence as C01.',
         ref='DESIGN.md §6 C12', technique='Coq proof (accept iff fits) + model/implementation correspondence by vm_compute'),
+    'C07': dict(
+        text='Coq model of the expression lexer (re.findall semantics of the token pattern), recursive-descent parser and '
+             'evaluator; theorems on byte extraction (all x, all n), truncating exact-rational division, rejection of unknown '
+             'labels and division by zero; tied to the code by differential execution on generated well-formed and malformed '
+             'expression texts (tokens and values).',
+        ref='DESIGN.md §6 C07', technique='Coq proof over expression model + lexer/parser/evaluator correspondence by vm_compute'),
 }
 
 ALL = [f'C{i:02d}' for i in range(1, 21)]
